@@ -543,6 +543,8 @@ class QvmCpu:
             msg = kwargs.get('msg')
             msg = msg or 'Cannot RESUME.'
             print(msg)
+        elif code == TrapCode.RETURN_WITHOUT_GOSUB:
+            print('RETURN without GOSUB')
         else:
             assert False
 
@@ -994,6 +996,10 @@ class QvmCpu:
 
     def _exec_ijmp(self):
         # RETURN
+        if self.cur_frame is None or self.cur_frame.gosub_depth == 0:
+            # no GOSUB is pending in this routine: what is on top of the
+            # stack is the routine's own return address, not ours
+            self.trap(TrapCode.RETURN_WITHOUT_GOSUB)
         target = self.pop(CellType.LONG)
         self._gosub_returned()
         self.pc = target
